@@ -25,6 +25,7 @@ type observation struct {
 	Escaped  string   `json:"escaped,omitempty"`
 	Diff     int      `json:"ledger_keys_changed"`
 	Types    []string `json:"error_types,omitempty"`
+	Value    string   `json:"returned_value,omitempty"` // what a run that reported success returned
 }
 
 func sentinelString(s *injected) string {
@@ -138,6 +139,9 @@ func (c *checker) judge(sc scenario, vm bool, plan []fault, down string, r runRe
 		Scenario: sc.Name, Engine: engineName(vm), Plan: plan, Down: down,
 		Obs: coqObs(r, info), Carried: sentinelString(info.Carried), External: info.External,
 		Diff: len(r.LedgerDiff), Types: info.Types,
+	}
+	if r.Err == nil && r.Value != nil {
+		o.Value = fmt.Sprintf("%.120v", r.Value)
 	}
 	var bad []string
 	if r.Escaped != nil {
@@ -346,7 +350,18 @@ func runMode(sum *lib.Summary) {
 				c.report(sc, o, bad, r)
 				sum.Count("observed:" + strings.Fields(strings.Trim(o.Obs, "()"))[0])
 				if compare && modelOK {
-					cases = append(cases, pending{pname, plan, o})
+					// bulk scenarios: all runs are judged directly; the model is compared on every 4th ledger access
+					sample := !sc.Bulk
+					if sc.Bulk {
+						for _, p := range plan {
+							if (p.Kind != "GetValue" && p.Kind != "SetValue") || p.Index%4 == 0 {
+								sample = true
+							}
+						}
+					}
+					if sample {
+						cases = append(cases, pending{pname, plan, o})
+					}
 				}
 				if len(sum.Samples) < 6 && len(r.Fired) > 0 && (sum.Evaluations%97 == 0) {
 					sum.Sample(o)
